@@ -15,7 +15,7 @@
 (* `hist` (hidden by VIEW) the finished calls; one REPLAY line is printed  *)
 (* for every transition that ends a call or crashes.                       *)
 (***************************************************************************)
-EXTENDS FileSetBase, Json
+EXTENDS FileSetBase, Json, FileFraming
 
 CONSTANTS
     MaxFilesSet, MaxSizeSet, ReuseSet,   \* configurations
@@ -28,6 +28,8 @@ CONSTANTS
     MaxReopens,       \* clean restarts (worker dropped while idle)
     MaxFmtFail,       \* emits of an event whose writer fails (front half of FileSet::emit)
     FmtFails,         \* how such a writer fails: subset of {"empty", "partial"} (output before failing)
+    SepForms,         \* the configured separator: subset of {"nl", "crlf"} (see SepOf)
+    WriterEnds,       \* how the writer ends its output: subset of {"sep", "none", "last", "first"}
     Ticks,            \* clock steps before a call: subset of {"same","later","next","back"}
     RetryTicks,       \* clock steps before a retry call
     Phantoms,         \* bytes pushed and then cleared from the channel before the batch: e.g. {0, 3}
@@ -48,6 +50,13 @@ view == <<o, w, env, calls>>
 
 NoFile == [name |-> None, per |-> 0, rec |-> FALSE, size |-> 0]
 
+-----------------------------------------------------------------------------
+(* The front half of the public emit path (spec/FileFraming.tla): the writer's output for   *)
+(* an event and the complete bytes E(e) that FileSet::emit queues for it, for the           *)
+(* configured separator and the way the writer ends its output.                             *)
+WriterEndsOf(f) == EndsFor(f, WriterEnds)
+QueuedFramed == \A f \in SepForms : \A we \in WriterEndsOf(f) : FramedOk(f, we)
+
 FreshWorker == [pc |-> "idle", active |-> NoFile, file |-> NoFile, listing |-> {},
                 hadActive |-> FALSE, batch |-> <<>>, rbytes |-> 0, result |-> "none",
                 cur |-> <<>>]
@@ -56,8 +65,9 @@ Init ==
     /\ \E mf \in MaxFilesSet, ms \in MaxSizeSet : o = ObsInit(mf, ms)
     /\ w = FreshWorker
     /\ \E r \in ReuseSet :
+       \E sf \in SepForms :
          env = [cp |-> 1, cms |-> 0, nb |-> 0, nc |-> 0, nf |-> 0, ncr |-> 0, nro |-> 0, nff |-> 0, ffk |-> "none",
-                nextEv |-> 1, ridUp |-> 5, ridDn |-> 4, alive |-> TRUE, reuse |-> r]
+                nextEv |-> 1, ridUp |-> 5, ridDn |-> 4, alive |-> TRUE, reuse |-> r, sepf |-> sf]
     /\ calls = <<>>
     /\ hist = <<>>
 
@@ -73,14 +83,16 @@ ClockOk(c) == c[1] >= 1 /\ c[1] <= MaxPeriod /\ c[2] <= MaxMs
 
 -----------------------------------------------------------------------------
 \* let ts = clock.now(); let mut file = self.active_file.take();
-Begin(tick, k, ph) ==
+Begin(tick, k, ph, we) ==
     /\ w.pc = "idle" /\ env.alive /\ env.nc < MaxCalls
+    /\ we \in WriterEndsOf(env.sepf)
     /\ LET retry == o.rest # <<>>
            c == Clock(tick)
            evs == IF retry THEN o.rest ELSE [i \in 1..k |-> env.nextEv + i - 1]
            bytes == EvBytes(evs)
        IN /\ ClockOk(c)
-          /\ IF retry THEN k = 1 /\ ph = 0 /\ tick \in RetryTicks
+          \* (a retry carries the bytes queued before: the writer is not run again)
+          /\ IF retry THEN k = 1 /\ ph = 0 /\ tick \in RetryTicks /\ we = "sep"
              ELSE env.nb < MaxBatches /\ env.nextEv + k - 1 <= NumEvents /\ tick \in Ticks
           /\ o' = ObsBegin(o, evs, bytes, c[1], c[2])
           /\ w' = [w EXCEPT !.pc = IF w.active # NoFile THEN "decide" ELSE "mkdir",
@@ -90,7 +102,8 @@ Begin(tick, k, ph) ==
                             \* EventBatch::clear resets remaining_bytes (fix F16): the bytes
                             \* dropped by an overflow truncation are not counted
                             !.rbytes = bytes,
-                            !.cur = [evs |-> evs, ph |-> ph, tick |-> tick, p |-> c[1], ms |-> c[2]]]
+                            !.cur = [evs |-> evs, ph |-> ph, tick |-> tick, p |-> c[1], ms |-> c[2],
+                                     we |-> we]]
           /\ env' = [env EXCEPT !.cp = c[1], !.cms = c[2], !.nc = @ + 1,
                                 !.nb = IF retry THEN @ ELSE @ + 1,
                                 !.nextEv = IF retry THEN @ ELSE @ + k]
@@ -245,7 +258,9 @@ Sync ==
 
 HistBatch(res, rest) ==
     [op |-> "batch", evs |-> w.cur.evs, ph |-> w.cur.ph, tick |-> w.cur.tick,
-     p |-> w.cur.p, ms |-> w.cur.ms, calls |-> calls, res |-> res, rest |-> rest]
+     p |-> w.cur.p, ms |-> w.cur.ms, calls |-> calls, res |-> res, rest |-> rest,
+     \* the writer's output for the events of this batch and the bytes emit queues for each
+     we |-> w.cur.we, out |-> WriterOut(env.sepf, w.cur.we), rec |-> Queued(env.sepf, w.cur.we)]
 
 \* on_batch returns
 End ==
@@ -320,7 +335,7 @@ FmtFail(kind) ==
 
 Next ==
     \/ \E kind \in FmtFails : FmtFail(kind)
-    \/ \E tick \in Ticks \cup RetryTicks, k \in 1..MaxEv, ph \in Phantoms : Begin(tick, k, ph)
+    \/ \E tick \in Ticks \cup RetryTicks, k \in 1..MaxEv, ph \in Phantoms, we \in WriterEnds : Begin(tick, k, ph, we)
     \/ MkDir \/ List \/ OpenEx \/ SyncDirReuse \/ FileLen \/ Decide \/ Remove \/ OpenNew \/ SyncDir
     \/ WriteSep \/ WriteEv \/ PFlush \/ PSync \/ Flush \/ Sync \/ End
     \/ Crash \/ Restart \/ Reopen
@@ -360,5 +375,6 @@ FilesOut(ob) == {[n |-> n, syn |-> ob.files[n].syn, uns |-> ob.files[n].uns, ent
 EmitReplay ==
     (Emit /\ Len(hist') > Len(hist) /\ hist'[Len(hist')].op \notin {"restart", "fmtfail"}) =>
         PrintT(<<"REPLAY", ToJson([maxFiles |-> o.maxFiles, maxSize |-> o.maxSize, reuse |-> env.reuse,
+                                   sepf |-> env.sepf, sep |-> SepOf(env.sepf),
                                    hist |-> hist', files |-> FilesOut(o'), acked |-> o'.acked])>>)
 =============================================================================
